@@ -1031,6 +1031,18 @@ int ov_fopen(const char *path,OggVorbis_File *vf){
 int ov_halfrate(OggVorbis_File *vf,int flag){
   int i;
   if(vf->vi==NULL)return OV_EINVAL;
+
+  /* set the flags first; the decode machine rebuilt below has to be
+     initialised and positioned with the new setting */
+  for(i=0;i<vf->links;i++){
+    if(vorbis_synthesis_halfrate(vf->vi+i,flag)){
+      /* refused (only possible when switching on): switch the links
+         already done back off; the decode state has not been touched */
+      while(i--)vorbis_synthesis_halfrate(vf->vi+i,0);
+      return OV_EINVAL;
+    }
+  }
+
   if(vf->ready_state>STREAMSET){
     /* clear out stream state; dumping the decode machine is needed to
        reinit the MDCT lookups. */
@@ -1044,12 +1056,6 @@ int ov_halfrate(OggVorbis_File *vf,int flag){
     }
   }
 
-  for(i=0;i<vf->links;i++){
-    if(vorbis_synthesis_halfrate(vf->vi+i,flag)){
-      if(flag) ov_halfrate(vf,0);
-      return OV_EINVAL;
-    }
-  }
   return 0;
 }
 
